@@ -3,6 +3,7 @@ module verifharness
 go 1.20
 
 require (
+	github.com/apache/thrift v0.13.0
 	github.com/cloudwego/frugal v0.0.0
 	github.com/cloudwego/gopkg v0.2.0
 )
